@@ -208,6 +208,99 @@ pub fn small_box(obs: &mut Obs, thorough: bool, mut check_one: impl FnMut(&Query
     Ok(())
 }
 
+/// flat containers at and around size thresholds (255 .. 70 000 elements, 17 .. 1025 members):
+/// expected index sequences are computed arithmetically, locations by address, paths literally
+fn large_flat(obs: &mut Obs, thorough: bool) -> Res {
+    let widths: Vec<usize> = if thorough {
+        vec![15, 16, 17, 31, 32, 33, 63, 64, 65, 127, 128, 129, 255, 256, 257, 511, 512, 513, 999, 1000, 1001, 1023, 1024, 1025, 4095, 4096, 4097, 32767, 32768, 65535, 65536, 65537, 70000, 131073]
+    } else {
+        vec![16, 17, 32, 33, 64, 65, 128, 129, 255, 256, 257, 1000, 1024, 1025, 4096, 4097, 65535, 65536, 65537, 70000]
+    };
+    let mut n = 0u64;
+    for w in widths {
+        let v = Value::Array((0..w).map(|i| json!(i)).collect());
+        let map = node_map(&v);
+        let all: Vec<usize> = (0..w).collect();
+        let cases: Vec<(String, Vec<usize>)> = vec![
+            ("$[*]".to_string(), all.clone()),
+            ("$[:]".to_string(), all.clone()),
+            ("$[::-1]".to_string(), all.iter().rev().copied().collect()),
+            ("$..*".to_string(), all.clone()),
+            ("$[?@ >= 0]".to_string(), all.clone()),
+            (format!("$[?@ == {}]", w - 1), vec![w - 1]),
+            ("$[-1]".to_string(), vec![w - 1]),
+            (format!("$[{}]", w - 1), vec![w - 1]),
+            (format!("$[{}]", w), vec![]),
+            (format!("$[-{}]", w), vec![0]),
+            (format!("$[-{}]", w + 1), vec![]),
+            ("$[1::1000]".to_string(), (1..w).step_by(1000).collect()),
+            (format!("$[{}:]", w - 2), vec![w - 2, w - 1]),
+            ("$[:2, -2:]".to_string(), vec![0, 1, w - 2, w - 1]),
+            (format!("$[?length($) == {} && @ < 3]", w), vec![0, 1, 2]),
+        ];
+        let mut cases = cases;
+        if w <= 1025 {
+            // quadratic by nature (the inner query is evaluated per element): small widths only
+            cases.push((format!("$[?count($[*]) == {}]", w), all.clone()));
+        }
+        for (q, exp) in cases {
+            obs.eval(1);
+            n += 1;
+            let case = || json!({"query": q, "doc": format!("[0, 1, ... {}]", w - 1)});
+            obs.nontrivial(&(q.as_str(), w), || json!({"query": q, "array_elements": w, "expected_results": exp.len()}));
+            let got = match libx::query_with_path(&v, &map, &q) {
+                Ok(g) => g,
+                Err(e) => return Err(Failure::new(format!("valid query on a wide array failed: {:?}", e), case())),
+            };
+            let locs: Vec<Option<Loc>> = got.iter().map(|x| x.loc.clone()).collect();
+            let want: Vec<Option<Loc>> = exp.iter().map(|i| Some(vec![Step::Idx(*i)])).collect();
+            if locs != want {
+                let first = locs.iter().zip(&want).position(|(a, b)| a != b);
+                let mut c = case();
+                c["results"] = json!(locs.len());
+                c["expected_results"] = json!(want.len());
+                c["first_difference_at"] = json!(first);
+                return Err(Failure::new("selected nodes of a wide array differ from the RFC nodelist", c));
+            }
+            for (x, i) in got.iter().zip(&exp) {
+                if x.path != format!("$[{}]", i) {
+                    let mut c = case();
+                    c["reported_path"] = json!(x.path);
+                    c["node_index"] = json!(i);
+                    return Err(Failure::new("wide array: a reported path is not the location of its node", c));
+                }
+            }
+        }
+    }
+    for m in [17usize, 33, 65, 129, 257, 1025] {
+        let keys: Vec<String> = (0..m).map(|i| format!("k{:05}", i)).collect();
+        let v = Value::Object(keys.iter().enumerate().map(|(i, k)| (k.clone(), json!(i))).collect());
+        let map = node_map(&v);
+        for (q, exp) in [
+            ("$.*".to_string(), (0..m).collect::<Vec<usize>>()),
+            ("$[?@ >= 0]".to_string(), (0..m).collect()),
+            ("$..*".to_string(), (0..m).collect()),
+            (format!("$.{}", keys[m - 1]), vec![m - 1]),
+            (format!("$['{}','{}']", keys[m - 1], keys[0]), vec![m - 1, 0]),
+            (format!("$[?length($) == {}]", m), (0..m).collect()),
+        ] {
+            obs.eval(1);
+            n += 1;
+            let got = match libx::query_with_path(&v, &map, &q) {
+                Ok(g) => g,
+                Err(e) => return Err(Failure::new(format!("valid query on a wide object failed: {:?}", e), json!({"query": q, "members": m}))),
+            };
+            let locs: Vec<Option<Loc>> = got.iter().map(|x| x.loc.clone()).collect();
+            let want: Vec<Option<Loc>> = exp.iter().map(|i| Some(vec![Step::Key(keys[*i].clone())])).collect();
+            if locs != want {
+                return Err(Failure::new("selected members of a wide object differ from the RFC nodelist", json!({"query": q, "members": m, "results": locs.len(), "expected_results": want.len()})));
+            }
+        }
+    }
+    obs.boxes.push(json!({"box": "flat arrays of 16 .. 70 000 (thorough: 131 073) elements and objects of 17 .. 1025 members at size thresholds x 15-16 resp. 6 query shapes", "queries": n, "exhaustive": true}));
+    Ok(())
+}
+
 fn box_small(obs: &mut Obs, thorough: bool) -> Res {
     small_box(obs, thorough, |q, t, d, o| check(q, t, d, true, o))
 }
@@ -224,6 +317,7 @@ pub fn prop() -> Prop {
         ],
         subs: vec![
             Sub { name: "box-small", kind: Kind::Exhaustive(box_small) },
+            Sub { name: "large-flat", kind: Kind::Exhaustive(large_flat) },
             Sub {
                 name: "random-plain",
                 kind: Kind::Random {
